@@ -51,7 +51,8 @@ def make_h(nmax, cons_sel, deep_subset):
             ctx.note("chain", list(chain))
             ctx.note("n_elif", sum(1 for c in chain if c == "elif"))
             ctx.note("n_async_block", sum(1 for c in chain if c == "async-block"))
-            mine = [v for v in vs if f"'{name}'" in v.message]
+            # nested functions are reported under a generic name: the header line identifies the function
+            mine = [v for v in vs if f"'{name}'" in v.message or v.line == hl]
             ctx.cover("reported" if mine else "clean")
             ctx.require("reported-iff-depth-exceeds-limit", Eq(len(mine) == 1, spec > eff),
                         fn=name, chain=chain, spec_depth=spec, reported=len(mine))
